@@ -138,6 +138,11 @@ def history(tid, rng, steps):
                 elif call == "assign_noise_empty":
                     e["ret"] = new(c.assign_noise(empty))
                 elif call == "mc_assign_noise":
+                    if any(type(c.dag.nodes[nd]["op"].noise).__name__ != "NoNoise" and
+                           not all(type(z).__name__ == "NoNoise" for z in (c.dag.nodes[nd]["op"].noise
+                                   if isinstance(c.dag.nodes[nd]["op"].noise, list) else [c.dag.nodes[nd]["op"].noise]))
+                           for nd in c.dag.nodes):
+                        continue        # Monte-Carlo noise is drawn for a noise-FREE circuit (its documented input)
                     m = mcn.McNoiseMap()
                     m.add_gate_noise("e", "Hadamard", [(nm.PauliError("X"), 0.5), (nm.PauliError("Z"), 0.25)])
                     m.add_gate_noise("ep", "CNOT", [(nm.PauliError("Y"), 0.5)])
